@@ -202,6 +202,8 @@ def connect_rules(repo: Repo, rep, P: str, proj, fn: ast.FunctionDef):
     if helper_name is None:
         _iteration_independence(rep, P, construct, rel, loops, g)
     _refusal_dominates(repo, rep, P, pconstruct, rel, g)
+    from . import c14
+    c14.module_index_rule(repo, rep, P, "R4")
     _unwrap_rule(rep, P, construct, rel, fn)
 
 
